@@ -53,6 +53,21 @@ check(
     "DESIGN.md section 5, C15",
 )
 
+check(
+    "C03", "asm",
+    "Seeded search over sequences of repeated assemblies interleaved with everything that moves the key of the cached element-to-CSR map (new element values, absent/present slots, real/complex values, Lagrange conditions and Dirichlet dofs changing Ndof, Bc_Init, mesh replacement, node renumbering, coordinate changes, Need_Update, Save_Iter/Set_Iter) on a harness-defined _Simu subclass (bulk + boundary + point groups, 1-2 problem types with different dofs per node in one object) and on Thermal / Elastic / PhaseField simulations. After every assembly K, C, M, F are compared (1e-12) with a dense loop summation of the very element arrays Construct_local_matrix_system returned for that call; shape, canonical CSR and complex dtype are checked; renumbering must give P K P^T. Probes count reused vs rebuilt maps.",
+    "Trusted: the dense loop reference (simkit.refs.ref_scatter_*), the wrapper that records the element arrays, NumPy. Staleness of Get_K_C_M_F() is not decided here (C14). The clause 'the solution is permuted by renumbering' is covered only through P K P^T (the solve itself is C04).",
+    "deterministic simulation: seeded assembly/cache-key histories vs dense scatter-add reference, ddmin-minimised replay files",
+    "DESIGN.md section 5, C03",
+)
+check(
+    "C05", "dyn",
+    "Seeded search over time-stepping histories (Elastic with Rayleigh damping: newmark, hht, hht_newmark, midpoint, backward and forward Euler; Thermal and linear WeakForms: parabolic theta-scheme and hyperbolic schemes): arbitrary prior states, parameters drawn from the accepted ranges, step size over four decades, load/constraint changes, scheme or step-size switches between steps, Save_Iter/Set_Iter rollback, injected back-end failure + retry, virtual clock jumps. After every step: documented update relations (well-conditioned forms), K u_t + C v_t + M a_t = F on free dofs, constraints, equality with one generic dense reference integrator built from the documented scheme definitions (backward-error based tolerances), weights = derivatives of the evaluation-point states, and discrete energy (conserved by Newmark(1/4,1/2) and midpoint, non-increasing for backward Euler) in free undamped motion.",
+    "Trusted: the reference integrator (simkit.engines.dyn.ref_states/ref_step, transcribed from the AlgoType and Solver_Set_Parabolic_Algorithm docstrings), dense NumPy algebra, K/C/M/F as returned by Get_K_C_M_F (their correctness is C01-C03). Parabolic alpha is drawn from (0.05, 1]; alpha = 0 is documented but divides by zero and is not generated. HyperElastic's use of the weights is exercised under C18.",
+    "deterministic simulation: seeded step/parameter/state/fault histories vs generic reference integrator, ddmin-minimised replay files",
+    "DESIGN.md section 5, C05",
+)
+
 ENGINES = [
     {"name": "simkit", "path": "/verif/simkit", "serves_properties": sorted(CHECKS), "kind_free_text": "deterministic simulator: seeded scheduler of public-API operations, fault-injecting file/solver/clock seams installed by module-attribute injection, reference models, ddmin shrinker, replay"},
 ]
